@@ -299,7 +299,7 @@ func main() {
 				j := jobs[i]
 				data, _ := streams.Wire(j.st.frames)
 				for _, d := range append([]drivers.Driver{drivers.ReaderLoop(4096), drivers.ReaderLoop(65537)}, ds...) {
-					if d.Name == "Reader/buf1" || d.Name == "Reader/buf2" || d.Name == "Reader/buf7" || strings.HasPrefix(d.Name, "Reader/handler-reads") || strings.HasPrefix(d.Name, "Reader/continuation-handler") {
+					if strings.HasPrefix(d.Name, "Reader/") && d.Name != "Reader/buf512" && d.Name != "Reader/buf4096" && d.Name != "Reader/buf65537" && !strings.HasPrefix(d.Name, "Reader/discard") {
 						continue // the drivers' iteration guard is sized for small payloads
 					}
 					for _, ch := range []int{0, 4093, 65536} {
